@@ -1,11 +1,17 @@
 """C01 - every residue is a verbatim, re-indexed copy of its force-field block."""
 from .. import gp_cases, gp_run
+from . import c01_extra
 
 PID = "C01"
 LEVEL = "exploration"
 RULE = ("same finite input set as C02 (4 blocks of 1-4 atoms with bonds/angles/dihedral versions/constraints/pairs/exclusions/"
         "ifdef meta x link subsets x all labelled connected residue graphs n<=4 (5 thorough) x all resname assignments x start "
-        "resid {1,5}); oracle = reference instantiation: atoms table (name,type,resname,resid,charge group offset,charge,mass) in "
+        "resid {1,5}); plus (i) terminal modifications: protein chains of 1-4 residues over ALA/GLY (and chains with a non-protein "
+        "residue) x start id {1,5} x node keys {resid-1, shifted} x {default termini, every single, every ordered pair of "
+        "(residue, modification)} with three modifications naming different atom sets, judged differentially (before/after) and "
+        "against the reference; (ii) polyply .itp syntax vs .ff syntax for the same blocks (incl. two dihedral terms on the same "
+        "atoms) on all labelled graphs n<=3; (iii) multi-residue blocks through from_itp: every sequence of <=4 tokens over {A, B, "
+        "M = two-residue block} containing M x start id {1,4} x 3 node-key orders; oracle = reference instantiation: atoms table (name,type,resname,resid,charge group offset,charge,mass) in "
         "residue-id order and the multiset of block interactions per instance; only atoms/interactions the reference marks as "
         "targeted by an applied link may differ. non-trivial = >=2 residues with >=2 different block sizes")
 ASSUMPTIONS = ["reference model pmc/ref_genparams.py", "blocks use resid 1 in their own table (library convention)"]
@@ -21,7 +27,10 @@ def cases(tier):
             if n == 5 and len(variant["links"]) > 1:
                 continue
             yield {"variant": variant, "n": n, "tier": tier}
+    yield from c01_extra.extra_cases(tier)
 
 
 def run_case(case):
+    if "kind" in case:
+        return c01_extra.run_extra(case)
     return gp_run.run_case(case, "C01")
